@@ -24,7 +24,9 @@ REPRESENTATION (documented again at the head of Gen/Poly.v).
     of a name) OR ran out of fuel.  Bridge/Poly.v proves `Some (model value)` for every argument in the image of the
     model's representation, so none of the three happens there.
   * python ints that are list indices / lengths (the names in NAT below) are `nat`, subscripts are `nth_error`; other
-    ints are `Z`; `x - y` of two indices is the Z difference.
+    ints are `Z`; `x - y` of two indices is the Z difference.  The only typing hints are NAT and EMPTY (what an empty
+    list literal bound to `res` / `C` is a list of); every assignment and use is type-checked against them, a
+    mismatch is Unsupported.  Identical loops of two specialisations (other an int / a Polynomial) are emitted once.
   * `while c: body` becomes `Fixpoint f (kv_fuel : nat) <read-only locals> <locals assigned in the body> {struct kv_fuel}`
     = `match kv_fuel with O => None | S kv_fuel => if c then body; f kv_fuel ... else Some <assigned locals>`;
     `for v in range(..)/itertools.product(range(..), range(..))` becomes a Fixpoint over the list of iteration values,
@@ -435,6 +437,8 @@ def list_literal(e, env, cx, want):
             parts.append(('star', t))
         else:
             t = expr(x, env, cx, eltty)
+            if is_name(x) and t.ty in LISTS:
+                env.stale(x.id)                       # the element list is now shared with the new list
             parts.append(('elt', t))
     if eltty is None:
         tys = {t.ty if k == 'elt' else {'mono': 'pyv', 'args': 'mono'}.get(t.ty) for k, t in parts}
@@ -602,6 +606,8 @@ def call(e, env, cx, want):
     if (is_name(f, 'Polynomial') or (ast.unparse(f) == 'self.__class__' and env.ty('self') == 'poly')) and len(args) == 1:
         a = expr(args[0], env, cx, 'args')
         if a.ty in ('args', 'poly'):
+            if is_name(args[0]):
+                env.stale(args[0].id)                 # the list is now the .args of the new object
             return bind(a, lambda x: T(x.text, 'poly'), cx)
         if a.ty == 'Z':
             return bind(a, lambda x: T(f'[[PInt {x.text}]]', 'poly'), cx)
